@@ -49,9 +49,15 @@ def budget(tier):
 
 def generate(tp: Tape, tier: str, profile=None, **genkw):
     thorough = tier == "thorough"
+    if profile is None and "allow_zero_default" not in genkw and "allow_zero" not in genkw:
+        genkw["allow_zero_default"] = True  # C01's own runs
     profile = profile or tp.weighted([("general", 6), ("rechunk", 2), ("multi", 2), ("reduce", 2), ("elemwise", 1)])
     kw = dict(max_steps=16 if thorough else 8, max_extent=tp.choice([12, 24, 40]) if thorough else 12,
               profile=profile)
+    # zero-length dimensions are a recorded weak spot of cubed (known findings zero-length-dim-*): they are
+    # explored where a matcher can attribute the consequences (C01, C12, C17) and kept out of the other checks,
+    # where they would only mask other behaviour
+    kw["allow_zero"] = genkw.pop("allow_zero_default", False)
     kw.update(genkw)
     prog = G.generate_program(tp, **kw)
     from checks import findings
